@@ -31,4 +31,4 @@ def run(tier, replay_path=None):
            "evaluations": len(names) * len(names), "distinct_nontrivial": nontriv,
            "rule": "pool = %d values: every variant (core + json, chrono, time, decimal, bigdecimal, uuid, ipnetwork, mac address, arrays) with NULLs, +0/-0, three NaN payloads, infinities, JSON objects differing in key order, decimals differing in scale, equal and reversed arrays, nested arrays, NaN inside arrays; TLC checks reflexivity / symmetry / transitivity / variant separation / Eq => equal hash key on all %d triples of the model and validates the real ==, Hash (DefaultHasher), HashSet membership and ValueTuple equality of every pair; symmetry and transitivity also on the recorded matrix; non-trivial = row with an equal partner other than itself" % (len(names), mc.distinct),
            "samples": [{"name": names[i], "equal_to": [names[j] for j, e in enumerate(recs[i]["eq"]) if e]} for i in (9, 19, 45)], "exhaustive": True, "impl_model_exact": drift == 0, "drift": drift}
-    return std_finish(pid, tier, t0, V, cov, ["payload classes of the pool as named in ValueEq.tla (OrderedFloat, serialised JSON, numeric decimal equality)", "pgvector::Vector is not in the pool"])
+    return std_finish(pid, tier, t0, V, cov, ["payload classes of the pool as named in ValueEq.tla (OrderedFloat, serialised JSON, numeric decimal equality)", "vector components are compared as f32 bit patterns by the crate (no NaN components in the pool)"])
